@@ -1,7 +1,7 @@
 """C05 - submitted messages are written to the socket exactly once, whole and in order (structural clauses)."""
 import ast
 
-from ..astutil import make_cfg, call_name, fn_calls, must_pass, node_calls, walk_no_nested, kwarg, witness_avoiding
+from ..astutil import strip_not, make_cfg, call_name, fn_calls, must_pass, node_calls, walk_no_nested, kwarg, witness_avoiding
 from ..raises import Raises
 from ..locks import FieldKinds
 from .c08 import universe, held_at_entry
@@ -273,11 +273,13 @@ def check(ctx):
         okg = False
         for d in dom[hn.id]:
             dn = cfg.nodes[d]
-            if dn.kind == "test" and ast.unparse(dn.ast) == "not self.transport.is_write_mode()":
-                tb = [m for m, l in cfg.succ[d] if l == "T"]
+            inner, pol = strip_not(dn.ast) if dn.kind == "test" else (None, True)
+            if inner is not None and ast.unparse(inner) == "self.transport.is_write_mode()":
+                ok_l, bad_l = ("F", "T") if pol else ("T", "F")     # the branch on which the transport is NOT in write mode
+                tb = [m for m, l in cfg.succ[d] if l == ok_l]
                 if tb and hn.id in cfg.reachable(tb[0]) and (d == hn.id or True):
-                    # the false branch must not reach this hand-off without passing the test again
-                    fb = [m for m, l in cfg.succ[d] if l == "F"]
+                    # the other branch must not reach this hand-off without passing the test again
+                    fb = [m for m, l in cfg.succ[d] if l == bad_l]
                     reach_f = set()
                     for m in fb:
                         seen, st_ = {m}, [m]
